@@ -11,9 +11,15 @@ pub mod c07;
 pub mod c09;
 pub mod c10;
 #[cfg(feature = "full")]
+pub mod c11;
+#[cfg(feature = "full")]
 pub mod c14;
 #[cfg(feature = "full")]
 pub mod c15;
+#[cfg(feature = "full")]
+pub mod c16;
+#[cfg(feature = "full")]
+pub mod c17;
 
 pub fn build_info() -> String {
     let mut f: Vec<&str> = Vec::new();
@@ -42,9 +48,15 @@ pub fn subs(prop: &str) -> Vec<Box<dyn DynSub>> {
         "C09" => c09::subs(),
         "C10" => c10::subs(),
         #[cfg(feature = "full")]
+        "C11" => c11::subs(),
+        #[cfg(feature = "full")]
         "C14" => c14::subs(),
         #[cfg(feature = "full")]
         "C15" => c15::subs(),
+        #[cfg(feature = "full")]
+        "C16" => c16::subs(),
+        #[cfg(feature = "full")]
+        "C17" => c17::subs(),
         _ => Vec::new(),
     }
 }
